@@ -1,6 +1,6 @@
 (* C02 — shape of the generated cases and the two executable verdicts. No proofs. *)
 From VLib Require Import CaseLib.
-From C02 Require Export Model ModelTx.
+From C02 Require Export Model ModelTx ModelSealed.
 Open Scope N_scope.
 
 (* the executable cases are evaluated with the glob / range matcher *)
@@ -74,11 +74,18 @@ Definition inverse_spec (values unmapped : list N) (lo hi : N) : list N :=
 (* ---- system level: an active fraction fed by bulks with searches in between ---- *)
 Inductive sop := SBulk (ds : list doc) | SAsk (s : squery).
 
-Definition ask_tx_agrees (st : astate) (s : squery) : bool :=
+(* the provider as transcribed: EmptyDataProvider for a fraction without documents, otherwise [from,to] clamped to
+   Info.From/To (= min/max MID of the documents ingested so far), then the transcribed search *)
+Definition ask_tx_agrees (st : astate) (c : list doc) (s : squery) : bool :=
   let 'SQ _ ast from to rev limit wt hist ids total himpl := s in
-  match search_tx st ast from to rev limit wt hist, hist_tx st ast from to rev hist with
-  | Ok (mi, mt), Ok mh => ids_eqb mi ids && (mt =? total) && hist_eqb mh himpl
-  | _, _ => false
+  match c with
+  | [] => ids_eqb [] ids && (0 =? total) && hist_eqb [] himpl
+  | _ =>
+    let '(f, t) := clamp (info_of c) from to in
+    match search_tx st ast f t rev limit wt hist, hist_tx st ast f t rev hist with
+    | Ok (mi, mt), Ok mh => ids_eqb mi ids && (mt =? total) && hist_eqb mh himpl
+    | _, _ => false
+    end
   end.
 Definition ask_ast (s : squery) : query := let 'SQ _ ast _ _ _ _ _ _ _ _ _ := s in ast.
 
@@ -87,13 +94,32 @@ Fixpoint script_agrees (ops : list sop) (st : astate) (c : list doc) : bool :=
   match ops with
   | [] => true
   | SBulk ds :: r => script_agrees r (bulk st ds) (c ++ ds)
-  | SAsk s :: r => ask_tx_agrees st s && sq_agrees (prepare c) s && script_agrees r (touch st (ask_ast s)) c
+  | SAsk s :: r => ask_tx_agrees st c s && sq_agrees (prepare c) s && script_agrees r (touch st (ask_ast s)) c
   end.
 Fixpoint script_spec_ok (ops : list sop) (c : list doc) : bool :=
   match ops with
   | [] => true
   | SBulk ds :: r => script_spec_ok r (c ++ ds)
   | SAsk s :: r => sq_spec_ok c s && script_spec_ok r c
+  end.
+
+
+(* an ACTIVE fraction answers through the provider: clamp to Info, then the search (specification-level LID table) *)
+Definition sq_agrees_active (p : prepared) (inf : N * N) (s : squery) : bool :=
+  let 'SQ _ ast from to rev limit wt hist ids total himpl := s in
+  let '(f, t) := clamp inf from to in
+  match search_prepared p ast f t rev limit wt hist, hist_prepared p ast f t rev hist with
+  | Ok (mi, mt), Ok mh => ids_eqb mi ids && (mt =? total) && hist_eqb mh himpl
+  | _, _ => false
+  end.
+
+(* a SEALED fraction: ID blocks of ipb IDs with the block-minimum shortcuts, LID blocks of capacity cap read by the
+   iterators *)
+Definition sq_agrees_sealed (sp : sprepared) (s : squery) : bool :=
+  let 'SQ _ ast from to rev limit wt hist ids total himpl := s in
+  match search_sealed_prepared sp ast from to rev limit wt hist, hist_sealed_prepared sp ast from to rev hist with
+  | Ok (mi, mt), Ok mh => ids_eqb mi ids && (mt =? total) && hist_eqb mh himpl
+  | _, _ => false
   end.
 
 Inductive case :=
@@ -110,7 +136,12 @@ Inductive case :=
 (* a real active fraction: bulks and searches interleaved, every answer recorded *)
 | CScript (ops : list sop)
 (* getLIDsBorders of the real fraction holding c *)
-| CBorders (c : list doc) (from to : N) (minLID maxLID : N).
+| CBorders (c : list doc) (from to : N) (minLID maxLID : N)
+(* a real ACTIVE fraction (non-empty) asked through its data provider: the model clamps [from,to] to Info *)
+| CActive (c : list doc) (qs : list squery)
+(* a real SEALED fraction (ipb = consts.IDsPerBlock, cap = consts.LIDBlockCap), or the sealed LID path built by the
+   real block generator with a SMALL capacity cap (the ID side then is the active index: any ipb may be modelled) *)
+| CSealed (ipb cap : N) (c : list doc) (qs : list squery).
 
 Definition case_agrees (c : case) : bool :=
   match c with
@@ -127,6 +158,14 @@ Definition case_agrees (c : case) : bool :=
       | Ok (a, b) => (a =? lo) && (b =? hi)
       | OutOfFuel => false
       end
+  | CActive c qs =>
+      match c with
+      | [] => false                                       (* the harness only reports fractions with documents *)
+      | _ => let p := prepare c in let inf := info_of c in forallb (sq_agrees_active p inf) qs
+      end
+  | CSealed ipb cap c qs =>
+      let p := prepare c in let sp := sprepare ipb cap c in
+      forallb (fun s => sq_agrees p s && sq_agrees_sealed sp s) qs
   end.
 
 (* the LIDs selected by [from,to] are exactly lo..hi: positions (from 1) of the table whose MID is in range *)
@@ -152,6 +191,8 @@ Definition case_spec_ok (c : case) : bool :=
   | CScript ops => script_spec_ok ops []
   | CBorders c from to lo hi =>
       list_eqb N.eqb (range_positions from to 1 (table c)) (iota lo (N.to_nat (hi + 1 - lo)))
+  | CActive c qs => forallb (sq_spec_ok c) qs
+  | CSealed _ _ c qs => forallb (sq_spec_ok c) qs
   end.
 
 Definition diff_indices (l : list case) : list nat := bad_indices (fun c => negb (case_agrees c)) l.
